@@ -4,6 +4,8 @@ import numpy as np
 from vmon.gen import atomsgen
 from vmon.oracle import atomsmodel as AM
 
+from vmon.oracle.util import clone
+
 PROPERTY = "C11"
 RULE = ("Pairs (self, other) of generated structures with all term kinds, tables present/absent per kind in every "
         "compatible combination, extra columns on either side; for |self|<=4, |other|<=3 EVERY partial injection "
@@ -132,7 +134,7 @@ def run_one(rng, a, o, idx_map, mode, ctx, st):
     ma, mo = AM.resolve(a), AM.resolve(o)
     sid, oid = ma.ids(), mo.ids()
     idmap = {oid[k]: sid[v] for k, v in idx_map.items()}
-    b = a.copy()
+    b = clone(a)
     what = "extend(mode=%s, map=%s)" % (mode, idx_map)
     try:
         if mode == "default":
@@ -149,7 +151,7 @@ def run_one(rng, a, o, idx_map, mode, ctx, st):
                     ctx.fail("%s: %s table changed length although ids were supplied as shared" % (what, k))
         else:
             offs = b.extend_types(o)
-            o1 = o.copy()
+            o1 = clone(o)
             o1.charges = np.array([atomsgen.uid(3000.0, i) for i in range(len(o))])
             b.extend(o, offsets=offs, structure_index_map=dict(idx_map))
             pred = AM.extend(ma, mo, idmap, retag=_retag)
